@@ -181,7 +181,103 @@ def run_case(case: dict):
     return ok(**info)
 
 
+# ------------------------------------------------------------------ the command-line client (subprocess, live sockets)
+
+CLI_FLAGS = [[], ["--verify-ssl"], ["--trust"], ["--trust", "--verify-ssl"], ["--no-redirects"], ["-v", "--timeout", "5"],
+             ["--no-verify-ssl"]]
+
+
+def enum_cli(tier):
+    for flags in CLI_FLAGS:
+        for changed in (True, False):
+            yield {"flags": flags, "changed": changed}
+
+
+def run_cli(case: dict):
+    """`python -m nauyaca get ...` with a pre-pinned trust store in a temporary HOME against a live TLS peer."""
+    import os
+    import socket
+    import ssl
+    import subprocess
+    import sys
+    import threading
+
+    import cryptography.x509 as x509
+
+    setup_logging()
+    from nauyaca.security.tofu import TOFUDatabase
+
+    home = scratch.subdir("c11-home")
+    pinned, presented = certs.get("rsa-a"), certs.get("ec-b" if case["changed"] else "rsa-a")
+    got = bytearray()
+    sctx = ssl.SSLContext(ssl.PROTOCOL_TLS_SERVER)
+    sctx.load_cert_chain(presented.cert_path, presented.key_path)
+    lsock = socket.socket()
+    lsock.bind(("127.0.0.1", 0))
+    lsock.listen(4)
+    port = lsock.getsockname()[1]
+    stop = threading.Event()
+
+    def serve():
+        lsock.settimeout(0.2)
+        while not stop.is_set():
+            try:
+                raw, _ = lsock.accept()
+            except OSError:
+                continue
+            try:
+                raw.settimeout(3)
+                c = sctx.wrap_socket(raw, server_side=True)
+                try:
+                    d = c.recv(4096)
+                    got.extend(d)
+                    if d:
+                        c.sendall(b"20 text/gemini\r\nOK\n")
+                except OSError:
+                    pass
+                finally:
+                    try:
+                        c.close()
+                    except OSError:
+                        pass
+            except (ssl.SSLError, OSError):
+                raw.close()
+
+    th = threading.Thread(target=serve, daemon=True)
+    th.start()
+    try:
+        os.makedirs(os.path.join(home, ".nauyaca"), exist_ok=True)
+        db = TOFUDatabase(Path(home) / ".nauyaca" / "tofu.db")
+        db.trust("localhost", port, x509.load_der_x509_certificate(pinned.der))
+        env = dict(os.environ, HOME=home, SSL_CERT_FILE=presented.cert_path, NO_COLOR="1", TERM="dumb")
+        url = f"gemini://localhost:{port}/inbox?session=TOPSECRET"
+        pr = subprocess.run([sys.executable, "-m", "nauyaca", "get", *case["flags"], url], env=env, capture_output=True, text=True, timeout=60)
+    finally:
+        stop.set()
+        th.join(2)
+        lsock.close()
+        import shutil
+
+        shutil.rmtree(home, ignore_errors=True)
+    info = {"exit": pr.returncode, "peer_got": len(got), "should_fail": case["changed"], "out": (pr.stdout + pr.stderr)[-120:]}
+    if case["changed"]:
+        if got:
+            return viol("bytes-sent-despite-failed-verification", f"nauyaca get {' '.join(case['flags'])}: the peer with a changed certificate "
+                        f"received {bytes(got)[:60]!r} (exit {pr.returncode})", **info)
+        if pr.returncode == 0:
+            return viol("verification-failure-not-raised", f"exit 0: {info['out']!r}", **info)
+        return ok(**info)
+    if not bytes(got).startswith(b"gemini://localhost:") or pr.returncode != 0:
+        return viol("valid-peer-failed", f"exit {pr.returncode}, peer got {bytes(got)[:60]!r}: {info['out']!r}", **info)
+    return ok(**info)
+
+
 LANES = [
+    Lane(name="cli", run_case=run_cli, enumerate=enum_cli, budget={"quick": 1, "thorough": 1}, shards={"quick": 14, "thorough": 14},
+         nontrivial=lambda c, v: c["changed"], labels=lambda c, v: ["flags:" + " ".join(c["flags"]), "changed" if c["changed"] else "same"],
+         exhaustive=True,
+         rule="the nauyaca get command (subprocess, temporary HOME with a pre-pinned store, live TLS peer) for every TOFU-preserving "
+              "flag combination x certificate changed / unchanged"),
     Lane(name="matrix", run_case=run_case, enumerate=enum_all, budget={"quick": 1, "thorough": 1},
          shards={"quick": 16, "thorough": 16}, nontrivial=lambda c, v: v.info.get("should_fail", False),
          labels=lambda c, v: [c["state"], c["op"], "peer:" + c["peer"], "redirect" if c["redirect"] else "direct", "tls" + c["tls"]],
